@@ -201,6 +201,8 @@ def run(ctx):
              "c17config", "TestVerifC17Config", "c17c", CONFIG_SHARDS, "config.New / Merger / paths", ""),
         Part(ctx, sem, drv_ready, "control", ["control/c17_test.go", shared_file(ctx, "control", False)],
              "c17compile", "TestVerifC17Compile", "c17z", COMPILE_SHARDS, "rule compilation / pipeline", "dae_stub_ebpf"),
+        Part(ctx, sem, drv_ready, "cmd", ["cmd/c17_test.go"],
+             "c17readconfig", "TestVerifC17ReadConfig", "c17e", 1, "cmd.readConfig vs Merger.Merge;config.New", "dae_stub_ebpf"),
     ]
     threads = [threading.Thread(target=p.run) for p in parts]
     prover = threading.Thread(target=lambda: ctx.prove(["DaeVerif.C17.Props"], ["DaeVerif.C17.Props"],
